@@ -77,6 +77,22 @@ func runTxnHistories(o opts, p txnProfile) error {
 			}
 			before, beforeRefs := st, refs
 			ob := lab.run(ops)
+			if !ob.Committed && ob.Panic == "" {
+				// an insert that names its row but not its uuid and is never executed: the uuid the server chose for it
+				// is not reported, yet earlier results may show it (a select of a row that refers to the name). Nothing
+				// was committed: the transaction is run again with a uuid of the harness's choosing in those inserts.
+				again := false
+				for i := range ops {
+					if ops[i].Kind == "insert" && ops[i].UUID == "" && ops[i].Name != "" && !(i < len(ob.Results) && ob.Results[i].Kind == "uuid") {
+						ops[i].UUID = gen.UUIDn(700000 + ti*16 + i)
+						again = true
+					}
+				}
+				if again {
+					w.Count("rerun:unexecuted named insert given a uuid")
+					ob = lab.run(ops)
+				}
+			}
 			for i := range ops {
 				// server-assigned uuids: the model is given the uuid the server reported
 				if ops[i].Kind == "insert" && ops[i].UUID == "" {
